@@ -23,7 +23,7 @@ LEVEL = 'fault_enumeration'
 STEP_UNIT = 'call-back invocations (markers and fault sites called by the renderer)'
 CHUNK = 2      # consecutive runs per forked child (core.worker)
 CASE_TIMEOUT = 300
-TIERS = {'quick': (2600, 170), 'thorough': (120000, 2400)}
+TIERS = {'quick': (2200, 170), 'thorough': (120000, 2400)}
 PROBES = ['handler_by_exact_name', 'handler_by_base_class',
           'handler_by_second_level_base', 'handler_bare',
           'handler_via_multiple_inheritance', 'second_handler_selected',
@@ -67,11 +67,11 @@ ASSUMPTIONS = [
 ]
 
 FAULT_CLASSES = ['EA', 'EAB', 'EABC', 'EX', 'EMI', 'KeyError', 'ValueError',
-                 'IndexError', 'EAB~', 'EX~']
+                 'IndexError', 'EAB~', 'EX~', 'ETY', 'TypeError']
 HANDLER_POOL = ['EA', 'EAB', 'EABC', 'EX', 'EMI', 'KeyError', 'LookupError',
-                'ValueError', 'IndexError', 'Exception']
+                'ValueError', 'IndexError', 'Exception', 'TypeError', 'ETY']
 PLAIN = {'error_type': 'OUTER', 'X_EA': E.EA, 'X_EAB': E.EAB,
-         'X_EABC': E.EABC, 'X_EX': E.EX, 'X_EMI': E.EMI,
+         'X_EABC': E.EABC, 'X_EX': E.EX, 'X_EMI': E.EMI, 'X_ETY': E.ETY,
          'SEQ2': ['p', 'q'], 'SEQ1': ['p'], 'SEQ0': []}
 
 
@@ -153,11 +153,13 @@ class Gen:
                       {'name': 'LookupError'}, {'name': 'IndexError'},
                       {'expr': 'X_EA'}, {'expr': 'X_EAB'}, {'expr': 'X_EABC'},
                       {'expr': 'X_EX'}, {'expr': 'X_EMI'}, 'site', 'site',
-                      'site'])
+                      'site', {'name': 'TypeError'}, {'expr': 'X_ETY'},
+                      {'name': 'AttributeError'}])
         if t == 'site':
             s = self.site('NX')
             self.script[s] = {'rot': [{'exc': c} for c in r.sample(
-                ['EA', 'EAB', 'EABC', 'EX', 'EMI', 'ValueError', 'EAB~', 'EX~'],
+                ['EA', 'EAB', 'EABC', 'EX', 'EMI', 'ValueError', 'EAB~', 'EX~',
+                 'ETY', 'TypeError'],
                 r.choice([1, 2, 3]))]}
             t = {'site': s}
         return {'k': 'raise', 'type': t,
